@@ -256,6 +256,9 @@ func (x *X) loadLoc(l Loc) Value {
 	switch l := l.(type) {
 	case *ScalarLoc:
 		if sp, ok := l.V.(SymPtr); ok {
+			if x.bmc != nil && x.bmc.noResolve {
+				return sp // predicates compare symbolic pointers without a case split
+			}
 			l.V = x.resolveSymPtr(sp)
 		}
 		return l.V
@@ -357,7 +360,12 @@ func (x *X) eq(a, b Value) *T {
 	switch a := a.(type) {
 	case *T:
 		return x.B.Eq(a, b.(*T))
+	case SymPtr:
+		return x.symPtrEq(a, b)
 	case Pointer:
+		if bs, isSym := b.(SymPtr); isSym {
+			return x.symPtrEq(bs, a)
+		}
 		bp, ok := b.(Pointer)
 		if !ok {
 			x.unsupported(fmt.Sprintf("compare pointer with %T", b))
@@ -466,5 +474,21 @@ func (x *X) ite(c *T, a, b Value) Value {
 		return r
 	}
 	x.unsupported(fmt.Sprintf("ite over %T", a))
+	return nil
+}
+
+// symPtrEq compares a symbolic pointer cell value with another pointer value.
+func (x *X) symPtrEq(sp SymPtr, o Value) *T {
+	switch o := o.(type) {
+	case SymPtr:
+		return x.B.Eq(sp.T, o.T)
+	case Pointer:
+		id := x.ptrTarget(o)
+		if id < 0 {
+			return x.B.False()
+		}
+		return x.B.Eq(sp.T, x.B.Const(uint64(id), ptrW))
+	}
+	x.unsupported(fmt.Sprintf("compare symbolic pointer with %T", o))
 	return nil
 }
